@@ -228,6 +228,19 @@ def gen_shared_upload(rng: random.Random) -> Dict[str, Any]:
     return {"groups": groups, "request": req, "links": [{"jt": "INNER", "l": "RL", "r": "RA", "li": ["k"], "ri": ["k"]}], "family": "shared_upload"}
 
 
+def gen_partial_reader(rng: random.Random) -> Dict[str, Any]:
+    """A root with two columns; a requested feature on the root's framework reads one of them, a feature on ANOTHER framework
+    reads the other one.  Whether the root step is marked for upload must not depend on which of its features the planner
+    happens to look at (regression input of fix 3a3ea33: the transform step found an empty Flight store in MULTIPROCESSING)."""
+    n = 3
+    other = rng.choice(["PandasDataFrame", "PythonDictFramework"])
+    groups: List[Dict[str, Any]] = [
+        {"name": "R0", "kind": "root", "cfw": "PyArrowTable", "cols": {"a": [rng.randrange(0, 9) for _ in range(n)], "b": [rng.randrange(0, 9) for _ in range(n)]}},
+        {"name": "S0", "kind": "derived", "cfw": "PyArrowTable", "features": {"s0": {"inputs": ["a"], "c0": 0, "coefs": [1]}}},
+        {"name": "T", "kind": "derived", "cfw": other, "features": {"t": {"inputs": ["b"], "c0": 2, "coefs": [1]}}}]
+    return {"groups": groups, "request": rng.sample(["s0", "t"], 2), "mp_runs": 4}
+
+
 def gen_option_groups(rng: random.Random) -> Dict[str, Any]:
     """A root whose data depends on a group option (two option values), consumer groups on the same or another framework,
     each requested for ONE option value: the producer is computed once per option group."""
